@@ -69,6 +69,9 @@ def history(max_records=12, max_len=2000, block=16, v13=False):
     rec = st.tuples(st.integers(0, 1), lengths(max_len, block), pad).map(list)
     if v13:
         rec = st.one_of(rec, rec, rec, rec, st.tuples(st.just(2), st.integers(20, 200), st.just(0)).map(list))
+    else:
+        # [2, ...] below TLS 1.3: a HelloRequest that the client ignores
+        rec = st.one_of(rec, rec, rec, rec, rec, rec, rec, rec, st.tuples(st.just(2), st.just(0), st.just(0)).map(list))
     return st.lists(rec, min_size=0, max_size=max_records)
 
 
